@@ -159,6 +159,16 @@ def check_guards(ctx, cfg):
             if slice_derived(a, d) and is_ga(strip_wrappers(d["pointee"])) and d.get("ref"):
                 # chunk functions reborrow nothing as a single array; a hit here is a new reinterpretation site
                 st, det = exact_extent(a, d)
+                if st != PROVED:
+                    # not one of the conversions of the whole slice (those are anchored above and must be exact): a NEW function that views a part of
+                    # a slice as an array (a `first_chunk`-style prefix) reinterprets nothing but that part - what it owes is that the part lies inside
+                    # the slice: 0 <= offset and offset + N * size_of::<T>() <= len * size_of::<T>() under the guards that dominate the reborrow
+                    v_ = d["ptr"]
+                    need_ = a.tenv.size(d["pointee"])
+                    ext_ = a.base_extent(v_[1]) if v_[0] == "P" else None
+                    pf_ = a.poly_facts(d["facts"])
+                    if ext_ is not None and prove((">=", v_[2]), pf_) and prove((">=", ext_ - v_[2] - need_), pf_):
+                        st, det = PROVED, "a view of a part of the slice (not a conversion of the whole slice): the part lies inside the slice under the dominating guards; " + det
                 ctx.ob("C02.G.sweep", "%s#reborrow#%d" % (body["key"], i), st, det, at=body["at"], cfg=cfg, frozen=False)
 
 
